@@ -46,7 +46,7 @@ var nonAsciiLabels = []string{"ä", "Ä", "日本語", "a≠b", "a≮b", "≯", 
 	// the first and last code point of every UTF-8 length class (U+0080 is where "ASCII" ends: a `>` for a `>=` shows only there),
 	// alone, inside ordinary text and next to the let-through characters
 	"\u0080", "a\u0080b", "\u0081", "\u00ff", "\u0100", "\u07ff", "\u0800", "\ud7ff", "\ue000", "\uffff", "\U00010000", "\U0010ffff", "a≠\u0080", "\u0080≮", "A\u0080"}
-var weirdHosts = []string{"", ".", "..", "...", "a.", "a..", ".a", "a..b", "%41", "%2e", "%2E%2e", "ex%61mple", "a%00b", "a b", "a<b", "a>b", "a|b", "a^b", "a\\b",
+var weirdHosts = []string{"[1:0:0:2:0:0:3:4]", "[0:0:1:0:0:1:0:0]", "[a:0:0:0:b:0:0:0]", "[1:0:0:2:0:0:0:4]", "[::10]", "[1:2:3:4:5:6:7:100]", "[1000::1]", "[::1.0.0.16]", "[10:100:1000:f:ff:fff:1:0]", "0x000000001", "00000017700000001", "1.2.3.0x000000004", "", ".", "..", "...", "a.", "a..", ".a", "a..b", "%41", "%2e", "%2E%2e", "ex%61mple", "a%00b", "a b", "a<b", "a>b", "a|b", "a^b", "a\\b",
 	"a%b", "a%2", "%zz", "a%25b", "a%2525b", "%C3%A4", "%c3%a4", "%E4", "%ff", "%80", "a%C3", "%EF%BF%BD", "a\x00b", "a\x7fb", "a\x1fb", "a%7fb", "a%20b", "a%23b",
 	"a%2Fb", "a%3Ab", "a%40b", "a%5Bb", "[", "]", "[]", "a[b]", "C:", "C|", "c:", "a:b", "a@b", "\xff", "a\xffb", "\xff\xfe", "a\xff\xfeb", "\xc3", "\xc3\n\xa4",
 	"a\tb", "a\nb", "%41%42", "1.2.3.4.", "1.2.3.4..", "a.1", "1.a", "0x.0x", "1..2", ".1", "1.", "%31", "%30x10", "１.２.３.４", "1。2。3。4", "0.0.0.0", "example.com:", "!\"$&'()*+,-.;=_`{}~",
@@ -58,7 +58,11 @@ var ipv4Nums = []string{"0", "1", "7", "8", "9", "10", "127", "255", "256", "257
 	"0x0", "0x1", "0xff", "0xFF", "0x100", "0xffff", "0x10000", "0xffffff", "0x1000000", "0xffffffff", "0x100000000", "0x7fffffffffffffff", "0x8000000000000000", "0xffffffffffffffffff",
 	"0X1", "0XfF", "0x", "0X", "0xg", "0x1g", "0xG", "00", "01", "07", "08", "09", "010", "0377", "0400", "0177777", "037777777777", "040000000000", "0777777777777777777777", "01000000000000000000000", "0777777777777777777777777",
 	"99999999999999999999z", "0x99999999999999999999z", "18446744073709551616x", "0xffffffffffffffffffg", "07777777777777777777777778", "0777777777777777777777779", "18446744073709551615.", "9223372036854775808a",
-	"+1", "-1", "+0", "-0", "1e3", "1_0", " 1", "1 ", "", "0x+f", "0x-1", "0+1", "a", "f", "x", "0a", "1x", "0b1", "0o7", "１", "٣"}
+	"+1", "-1", "+0", "-0", "1e3", "1_0", " 1", "1 ", "", "0x+f", "0x-1", "0+1", "a", "f", "x", "0a", "1x", "0b1", "0o7", "１", "٣",
+	// zero-padded numbers: MORE digits than the largest 32-bit number has in that radix, with a value that still fits
+	// (a range test by length instead of value, wave 10's S97), next to padded ones that really overflow
+	"0x000000001", "0x00007f000001", "0x00000ffff", "0x0000000000000000000000000000000001", "0x000000000", "0x0000000ffffffff", "0x0000000100000000",
+	"00000017700000001", "000000000000377", "0000000000000000000000000000000007", "000000000000", "00000037777777777", "00000040000000000", "0000000000"}
 
 var portPool = []string{"", "80", "443", "21", "0", "00", "00080", "8080", "65535", "65536", "65537", "99999", "4294967377", "99999999999999999999", "8a", "a8", "-1", "+1", " 80", "80 ", "8 0", "８０", "1", "70", "080"}
 
@@ -118,7 +122,8 @@ func genHexPiece(r *Rand) string {
 	case 3:
 		return "FFFF"
 	case 4:
-		return "00001"
+		// a digit-count boundary of the serializer (0x10, 0x100, 0x1000 and their neighbours), or five digits
+		return []string{"00001", "10", "100", "1000", "f", "ff", "fff", "11", "101", "1001", "0010", "0100"}[r.N(12)]
 	case 5:
 		return fmt.Sprintf("%05x", r.N(0x100000))
 	case 6:
